@@ -32,6 +32,9 @@ type specEnv struct {
 	newFacts []*QFact
 	rc       *rootCtx
 	freshAlloc func() *Term
+	ext        []extent
+	st         *State
+	headCalls  *Term
 }
 
 func specErr(f string, a ...interface{}) { panic(Unsupported{"spec: " + fmt.Sprintf(f, a...)}) }
@@ -351,6 +354,7 @@ func (env *specEnv) selector(t *ast.SelectorExpr) SVal {
 			if st.Field(i).Name() == t.Sel.Name {
 				v := c.Load(env.heap, toPtr(base.V), structOffsets(st)[i], st.Field(i).Type())
 				c.wfAssume(v, &env.e.pendingWF) // standing size assumption for values read by specifications
+				env.e.pendingVals = append(env.e.pendingVals, pendingVal{v, st.Field(i).Type()})
 				return SVal{V: v, T: st.Field(i).Type()}
 			}
 		}
@@ -694,12 +698,54 @@ func (env *specEnv) call(t *ast.CallExpr) SVal {
 		// same backing pointer
 		a, b := env.eval(t.Args[0]), env.eval(t.Args[1])
 		return SVal{V: Scalar{T: c.PtrEq(dataPtr(a.V), dataPtr(b.V))}, T: boolT}
+	case "window":
+		// window(p, n): the n bytes at pointer p are valid memory. Assumed: recorded as an extent;
+		// proved: must lie within memory known to be valid.
+		pv := env.eval(t.Args[0])
+		n := env.asInt64(env.toType(env.eval(t.Args[1]), intT))
+		p := dataPtr(pv.V)
+		if env.assume {
+			env.e.pendingExt = append(env.e.pendingExt, extent{p.R, p.O, c.Add(p.O, n)})
+			return SVal{V: Scalar{T: c.And(c.Sle(c.Const(64, 0), n), c.Slt(n, c.Const(64, 1<<40)), c.Ult(p.O, c.Const(64, 1<<47)))}, T: boolT}
+		}
+		end := c.Add(p.O, n)
+		var alts []*Term
+		for _, x := range env.ext {
+			alts = append(alts, c.And(c.Eq(p.R, x.R), c.Ule(x.Lo, p.O), c.Ule(end, x.Hi), c.Ule(p.O, end)))
+		}
+		alts = append(alts, c.Eq(n, c.Const(64, 0)))
+		return SVal{V: Scalar{T: c.And(c.Sle(c.Const(64, 0), n), c.Or(alts...))}, T: boolT}
 	case "disjoint":
 		// the memory spans of two slices/strings do not overlap (cap-extent for slices)
 		a, b := env.eval(t.Args[0]), env.eval(t.Args[1])
 		ar, alo, ahi := env.span(a)
 		br, blo, bhi := env.span(b)
 		return SVal{V: Scalar{T: c.Or(c.Ne(ar, br), c.Ule(ahi, blo), c.Ule(bhi, alo))}, T: boolT}
+	case "calls":
+		// ghost: calls made so far through function-typed parameters
+		t0 := c.Const(64, 0)
+		if env.st != nil && env.st.calls != nil {
+			t0 = env.st.calls
+		}
+		return SVal{V: Scalar{T: t0}, T: intT}
+	case "headcalls":
+		t0 := c.Const(64, 0)
+		if env.headCalls != nil {
+			t0 = env.headCalls
+		}
+		return SVal{V: Scalar{T: t0}, T: intT}
+	case "fieldat":
+		// fieldat(ptr): view an unsafe.Pointer taken from a FieldIDMap as *FieldDescriptor
+		pv := env.eval(t.Args[0])
+		ft := env.lookupType("FieldDescriptor")
+		if ft == nil {
+			specErr("fieldat: no FieldDescriptor type in scope")
+		}
+		return SVal{V: toPtr(pv.V), T: types.NewPointer(ft)}
+	case "samerg":
+		// same region identifier, nil included
+		a, b := env.eval(t.Args[0]), env.eval(t.Args[1])
+		return SVal{V: Scalar{T: c.Eq(regionOf(a.V), regionOf(b.V))}, T: boolT}
 	case "sameregion":
 		a, b := env.eval(t.Args[0]), env.eval(t.Args[1])
 		// same allocation (nil shares an allocation with nothing)
